@@ -38,7 +38,7 @@ def states_of(sc, obs):
             amt, st = sx.q(o[0]), [sx.bnd(b) for b in o[1]]
         elif t in (3, 4, 5):
             amt, st = sx.q(o[1]), [sx.bnd(b) for b in o[2]]
-        elif t in (7, 8):
+        elif t in (7, 8, 10):
             amt, st = None, [sx.bnd(b) for b in o[0]]
         else:
             amt, st = None, cur
@@ -62,7 +62,7 @@ def mon_c01(sc, obs):
     for n, (op, amt, before, after, raw) in enumerate(states_of(sc, obs)):
         if after is None:
             return (f"op #{n} {op} completes on consistent data", f"raised error class {raw[1]}", None)
-        if op[0] in (7, 8):
+        if op[0] in (7, 8, 10):
             continue
         for i, (l, u) in enumerate(after):
             # float32 rounding is not modelled: outside the exact dyadic domain allow a few ulps
@@ -80,7 +80,7 @@ def mon_c05(sc, obs):
     if whole_error(obs):
         return None
     for n, (op, amt, before, after, raw) in enumerate(states_of(sc, obs)):
-        if after is None or op[0] in (7, 8):
+        if after is None or op[0] in (7, 8, 10):
             continue
         for i, ((l0, u0), (l1, u1)) in enumerate(zip(before, after)):
             if l1 < l0 or u1 > u0:
@@ -198,6 +198,7 @@ def check_C13(ctx):
     n = 500 if ctx.quick else 6000
     scs, meta = k3_batch(ctx, "c13", n)
     run_k3(ctx, "K3/K4 propositional engine", scs, ["c13_amount"])
+    ctx.corpus(["d2_iff_amount.py"])
     ctx.cov["distribution"] = dist(meta)
     try:
         import checks_fol
